@@ -258,7 +258,16 @@ def runLifeCase (ts : List String) : String :=
     else if t.startsWith "cn=" then { c with cn := some (t.drop 3).toString }
     else if t.startsWith "pw=" then { c with pw := true }
     else c) {}
-  String.intercalate " " (lifeRun cfg {} (secs.getD 1 []))
+  let acts := secs.getD 1 []
+  -- the domain of portoff / cfgport: until the port is restored only Stop and observations occur
+  let inDomain : Bool := (acts.foldl (fun (st : Bool × Bool) a =>
+      let kind := (a.splitOn ":").headD ""
+      if kind == "portoff" || kind == "cfgport" then (st.1, true)
+      else if kind == "porton" then (st.1, false)
+      else if st.2 && !(kind == "stop" || kind == "obs" || kind == "alive" || kind == "cclose") then (false, st.2)
+      else st) (true, false)).1
+  if !inDomain then "out-of-domain" else
+  String.intercalate " " (lifeRun cfg {} acts)
 
 def handleLine (toks : List String) : String :=
   match toks with
@@ -290,6 +299,12 @@ def handleLine (toks : List String) : String :=
     let p := unhex ph
     let bits := String.ofList (ks.map fun k => if globMatch p (unhex k) then '1' else '0')
     s!"keys={bits} scan={bits}"
+  -- every SCAN call filters with the pattern it carries itself (`scanOpts`: the regex handed to the handler is compiled
+  -- from this call's MATCH argument, whatever the cursor): what a continued call returns is selected by its own pattern
+  | "scanswitch" :: _ => "sound"
+  -- every request's span block is balanced whatever the other connections do (`C20_balanced` is per connection; the
+  -- dispatch lock adds no span)
+  | "conc20" :: _ => "balanced"
   | "life" :: ts => runLifeCase ts
   | "race" :: _ => racePrediction
   -- a connection blocked in a write is its own goroutine's business: every other connection is served
